@@ -2,7 +2,7 @@
 import vcheck
 from E2_common import eq
 
-ENTRIES = ['harness_undeclared', 'harness_final', 'harness_types', 'harness_order']
+ENTRIES = ['harness_undeclared', 'harness_final', 'harness_types', 'harness_order', 'harness_class_order_an']
 POS = ['initialiser', 'assignment value', 'echo argument', 'if condition']
 
 
@@ -24,8 +24,7 @@ def queries(tier):
                          'a local x %s written by %s: %s' % ('declared final' if f else 'not final', ['x = 2;', 'x++;', '(x = 2);'][w],
                                                              'Semantic error' if f else 'accepted'), tier))
     types = ['int', 'long', 'float', 'bit', 'boolean', 'string', 'char']
-    pairs = [(a, b) for a in range(7) for b in range(7)] if tier != 'quick' else \
-            [(0, 0), (1, 0), (0, 1), (2, 0), (0, 2), (3, 0), (0, 3), (4, 3), (3, 4), (5, 6), (6, 5), (1, 1), (5, 5), (2, 1)]
+    pairs = [(a, b) for a in range(7) for b in range(7)]
     for a, b in pairs:
         qs.append(aq('types %s <- %s' % (types[a], types[b]), 'harness_types', [a, b],
                      '%s x = <%s literal>: accepted exactly when the types agree or int widens to long' % (types[a], types[b]), tier))
